@@ -41,7 +41,7 @@ def detector_spaces(tier: str, chains: bool = True) -> Iterator[Tuple[str, str, 
     # rekey-to
     full = (A.addr_atoms("RekeyTo") + A.gtxn_variants(["txn RekeyTo", Z, "=="], "txn RekeyTo", (0, 1), (1,))
             + A.cross_block(["txn RekeyTo", Z, "=="]) + A.cross_block(["txn RekeyTo", f"addr {A.LIT1}", "!="]))
-    yield from emit("rekey-to", "direct", spaces.layered(full, _addr_small("RekeyTo"), tier, chains=chains, l2_top_alpha=top))
+    yield from emit("rekey-to", "direct", spaces.layered(full, _addr_small("RekeyTo"), tier, chains=chains, l2_top_alpha=top, l2_size=None if q else 3))
     sh = A.shuffled(["txn RekeyTo", Z, "=="]) + A.shuffled(["txn Fee", "int 1000", ">"])
     yield from emit("rekey-to", "shuffle", spaces.layered(sh, sh[:2], tier, chains=False, l2_size=2, l3=False, max_subs=1))
     # can-close-account / can-close-asset
